@@ -154,7 +154,7 @@ func (g *G) localize(f *FlowSpec, loc J, item, prop string, vals []string, mk fu
 			continue
 		}
 		// 0 absent (simplest) / present / [] / [""] / different length
-		st := t.Weighted("trstate", 5, 5, 1, 1, 1)
+		st := t.Weighted("trstate", 5, 5, 1, 1, 1, 1)
 		if st == 0 {
 			continue
 		}
@@ -168,6 +168,15 @@ func (g *G) localize(f *FlowSpec, loc J, item, prop string, vals []string, mk fu
 			tr = []any{}
 		case 3:
 			tr = []any{""}
+		case 5:
+			// several elements, all empty: a translation that is there (only [] and [""] count as missing)
+			n := len(vals)
+			if n < 2 {
+				n = 2
+			}
+			for i := 0; i < n; i++ {
+				tr = append(tr, "")
+			}
 		case 4:
 			n := len(vals) + 1
 			if len(vals) > 1 && t.Chance("trshorter", 1, 2) {
